@@ -167,12 +167,30 @@ func (d *deadliner) run(ctx context.Context, deadlineFunc DeadlineFunc) {
 		currTimer = d.clock.NewTimer(currDeadline.Sub(d.clock.Now()))
 	}
 
+	// expired queues deadlined duties until the consumer of deadlineChan has taken them, in deadline order.
+	// The run loop must never block on the consumer (which may be synchronously adding duties),
+	// but it must not drop deadlined duties either when more of them expire at once than deadlineChan buffers.
+	var expired []Duty
+
 	// TODO(dhruv): optimise getCurrDuty and updating current state if earlier deadline detected,
 	//  using min heap or ordered map
 	for {
+		// Only offer the head of the queue when there is one: a nil channel is never selected.
+		var (
+			nextChan    chan<- Duty
+			nextExpired Duty
+		)
+
+		if len(expired) > 0 {
+			nextChan = d.deadlineChan
+			nextExpired = expired[0]
+		}
+
 		select {
 		case <-ctx.Done():
 			return
+		case nextChan <- nextExpired:
+			expired = expired[1:]
 		case input := <-d.inputChan:
 			deadline, canExpire := deadlineFunc(input.duty)
 			if !canExpire {
@@ -195,15 +213,13 @@ func (d *deadliner) run(ctx context.Context, deadlineFunc DeadlineFunc) {
 				setCurrState()
 			}
 		case <-currTimer.Chan():
-			// Send deadlined duty to receiver.
-			select {
-			case <-ctx.Done():
-				return
-			case d.deadlineChan <- currDuty:
-			default:
+			// Queue deadlined duty for the receiver.
+			expired = append(expired, currDuty)
+			if len(expired) > cap(d.deadlineChan) {
 				log.Warn(ctx, "Deadliner output channel full", nil,
 					z.Str("label", d.label),
 					z.Any("duty", currDuty),
+					z.Int("backlog", len(expired)),
 				)
 			}
 
